@@ -231,8 +231,8 @@ pub fn run(ctx: &Ctx) -> (Report, String) {
     if ctx.is_main() {
         let m = ctx.scale_pct;
         rep.require("headers_matched", if thorough { 40_000_000 } else { 3_000_000 } * m / 100);
-        for k in ["sweep:sor-custom8", "sweep:ptype-lowbits", "sweep:opptype-bits", "sweep:cpfmt", "sweep:par", "sweep:cpcfc-etr", "sweep:uui-sss", "sweep:layers", "sweep:rps", "sweep:pb", "inheritance_pairs", "marker_flips_rejected", "decoded_picture_header_checked", "decoded_picture_header_checked_in_history"] {
-            rep.require(k, 40);
+        for k in ["sweep:sor-custom8", "sweep:ptype-lowbits", "sweep:opptype-bits", "sweep:cpfmt", "sweep:par", "sweep:cpcfc-etr", "sweep:uui-sss", "sweep:layers", "sweep:rps", "sweep:pb", "inheritance_pairs", "marker_flips_rejected", "decoded_picture_header_checked", "decoded_picture_header_checked_in_history", "sweep:pei-ladder"] {
+            rep.require(k, if k == "sweep:pei-ladder" { 20 } else { 40 });
         }
     }
     (rep, rule())
@@ -309,6 +309,24 @@ fn shard(ctx: &Ctx, s: usize, n_random: u64, thorough: bool, rep: &mut Report) {
         rep.count("sweep:sor-custom16");
     }
 
+    // ---- extra-information byte counts around 2^8 and far beyond (boundary ladder) ----
+    if s == 59 {
+        set("PEI ladder");
+        for n in crate::mon::ladder::PEI_LADDER {
+            for _ in 0..3 {
+                let mut h = base_sor(&mut rng);
+                h.pei = (0..n).map(|_| rng.byte()).collect();
+                sor_case(rep, &h, &coords);
+                let mut h = random_std(&mut rng, false);
+                h.pei = (0..n).map(|_| rng.byte()).collect();
+                std_case(rep, &h, false, None, &coords);
+                let mut h = random_std(&mut rng, true);
+                h.pei = (0..n).map(|_| rng.byte()).collect();
+                std_case(rep, &h, false, None, &coords);
+                rep.count("sweep:pei-ladder");
+            }
+        }
+    }
     // ---- standard baseline PTYPE: all 32 low-bit patterns x 6 formats x 8 flag patterns x CPM ----
     if s == 1 {
         set("baseline PTYPE sweep");
@@ -613,10 +631,14 @@ fn shard(ctx: &Ctx, s: usize, n_random: u64, thorough: bool, rep: &mut Report) {
     // ---- a decoded picture reports the header it was decoded from ----
     if s == 57 || s == 58 {
         set("decoded picture header");
-        for i in 0..ctx.n(400, 20000) {
-            let (flavour, w, h) = gen_flavour_and_size(&mut rng, 40, false);
-            let cfg = gen_cfg(&mut rng, flavour, w, h);
-            let pic = gen_intra(&mut rng, &cfg);
+        let big: Vec<(usize, usize)> = if s == 57 { crate::mon::ladder::boundary_dims(&mut rng, false) } else { vec![] };
+        for i in 0..ctx.n(400, 20000) + big.len() as u64 {
+            let (flavour, w, h) = if (i as usize) < big.len() { (Flavour::Sor((i % 2) as u8), big[i as usize].0, big[i as usize].1) } else { gen_flavour_and_size(&mut rng, 40, false) };
+            let cfg = if (i as usize) < big.len() { crate::mon::ladder::cfg_for(&mut rng, flavour, w, h, 0) } else { gen_cfg(&mut rng, flavour, w, h) };
+            let pic = if (i as usize) < big.len() { crate::mon::ladder::large_intra(&mut rng, &cfg) } else { gen_intra(&mut rng, &cfg) };
+            if (i as usize) < big.len() {
+                rep.count("decoded_header_large_sizes_tried");
+            }
             let bytes = pic.encode();
             let mut dec = Dec::new(flavour.sorenson(), false);
             rep.evaluations += 1;
@@ -649,7 +671,8 @@ fn shard(ctx: &Ctx, s: usize, n_random: u64, thorough: bool, rep: &mut Report) {
             // repeated / increasing / random temporal references, new quantisers and (at I pictures) new sizes
             let mut cfg = cfg.clone();
             let (mut w, mut h) = (w, h);
-            for step in 0..1 + rng.below(4) {
+            let steps = if (i as usize) < big.len() { 0 } else { 1 + rng.below(4) };
+            for step in 0..steps {
                 cfg.tr = match rng.below(3) {
                     0 => cfg.tr,
                     1 => cfg.tr.wrapping_add(1),
